@@ -10,7 +10,12 @@ N == @@N@@
 \* e.g. /x/x/../.., is within reach), length 0..M
 M == @@M@@
 SegTokens == { <<"/">>, <<"x">>, <<".">>, <<".", ".">>, <<"%","2","e">> }
-Inputs == SeqsUpTo(Tokens, N) \cup SeqsUpTo(SegTokens, M)
+\* third family: bytes that are ORDINARY path bytes for RFC 3986 but special to some file systems
+\* (drive-letter colon, backslash, escaped backslash): on a platform whose separator is "/" they
+\* must neither be treated as separators nor suppress the leading slash, length 0..K
+K == @@K@@
+OrdTokens == { <<"/">>, <<"x">>, <<".">>, <<".", ".">>, <<":">>, <<"\\">>, <<"%","5","c">> }
+Inputs == SeqsUpTo(Tokens, N) \cup SeqsUpTo(SegTokens, M) \cup SeqsUpTo(OrdTokens, K)
 
 Vec(ts) == LET p == TokBytes(ts) IN
   [ in      |-> p,
